@@ -5,6 +5,7 @@ CONSTANTS
   FailCs = {1, 2}
   FailNs = {2}
   PruneTs = {150}
+  RgsSnaps = {}
   WithReload = FALSE
 CONSTRAINT Bound
 VIEW View
